@@ -13,6 +13,9 @@ Theorem C06_model_is_best2b : forall f pt a b ma mb,
   pmatches f pt a = Some ma -> pmatches f pt b = Some mb ->
   exists w, best2 f pt a b = Some w /\ sel w a b = best2b ma mb a b.
 Proof. exact best2_spec. Qed.
+Theorem C06_worklist_best_refines : forall p pt a b, pattern_new p = Val pt ->
+  exists k, forall f, best2_w (k + f) pt a b = best2 (fuel_for p) pt a b.
+Proof. exact best2_w_refines. Qed.
 Theorem C06_none_iff : forall ma mb a b, best2b ma mb a b = None <-> ma = false /\ mb = false.
 Proof. exact best_none_iff. Qed.
 Theorem C06_result_is_arg_and_matches : forall ma mb a b r, best2b ma mb a b = Some r ->
